@@ -52,7 +52,10 @@ def main():
         meta = json.load(open(os.path.join(d, "meta.json")))
         if do_confirm and not meta.get("confirmed"):
             confirm(d, meta)
-        checks = list(meta.get("checks", {}).keys()) or [meta["property"]]
+        # the property's own check, plus whichever other check reported the change before
+        checks = [meta["property"]] + [c for c in meta.get("detected_by", []) if c != meta["property"]]
+        if "--all-checks" in args:
+            checks = list(dict.fromkeys(checks + list(meta.get("checks", {}).keys())))
         hist = meta.setdefault("history", [])
         if meta.get("checks") and not any(h.get("checks") == meta["checks"] for h in hist):
             hist.append({"machinery": meta.get("machinery", "first run"), "detected_by": meta.get("detected_by", []), "checks": meta["checks"]})
